@@ -49,12 +49,13 @@ class KaniResult:
         self.covers = {}             # description -> SATISFIED/UNSATISFIABLE/UNREACHABLE
         self.unwind_failed = False
         self.labelled = {}           # property label -> number of reachable labelled assertions
+        self.from_cache = False
         self.raw = ''
 
     def to_json(self):
         return {'harness': self.name, 'status': self.status, 'solver_time_s': self.time_s,
                 'checks': self.n_checks, 'failed_checks': [d for d, _ in self.failed],
-                'covers': self.covers, 'labelled_assertions': self.labelled}
+                'covers': self.covers, 'labelled_assertions': self.labelled, 'from_cache': self.from_cache}
 
 
 CHECK_RE = re.compile(r'^Check \d+: (\S.*?)\n\t - Status: (\w+)\n\t - Description: "(.*?)"\n(?:\t - Location: (.*?)\n)?', re.M | re.S)
@@ -105,34 +106,43 @@ def run_harnesses(qualified, target_name, jobs=12, harness_timeout_s=900, full_c
         shutil.rmtree(outdir)
     os.makedirs(os.path.join(BUILD, 'logs'), exist_ok=True)
     log = os.path.join(BUILD, 'logs', 'kani-%s.log' % target_name)
-    cmd = mem_limit_prefix(mem_gb) + ['cargo', 'kani', '--target-dir', tdir, '-j', str(jobs), '--output-format', 'terse',
-                                      '--output-into-files', '--exact', '-Z', 'unstable-options',
-                                      '--harness-timeout', '%ds' % harness_timeout_s]
-    for q in qualified:
-        cmd += ['--harness', q]
-    if not full_checks:
-        cmd += REDUCED
-    cmd += CBMC_ARGS
-    t0 = time.time()
-    with open(log, 'w') as lf:
-        try:
-            p = subprocess.run(cmd, cwd=KANI_DIR, stdout=lf, stderr=subprocess.STDOUT, env=ENV,
-                               timeout=wall_cap_s or (harness_timeout_s * (1 + len(qualified) // max(jobs, 1)) + 600))
-            rc = p.returncode
-        except subprocess.TimeoutExpired:
-            rc = -9
-    wall = time.time() - t0
-    logtxt = open(log, errors='replace').read()
     results = {}
-    build_failed = ('error: could not compile' in logtxt) or ('error[E' in logtxt)
+    todo = []
     for q in qualified:
-        r = KaniResult(q)
-        f = os.path.join(outdir, q)
-        if os.path.exists(f):
-            parse_result_file(f, r)
+        c = cache_load(q, full_checks)
+        if c is not None:
+            results[q] = c
         else:
-            r.status = 'undecided'
-        results[q] = r
+            todo.append(q)
+    wall, build_failed = 0.0, False
+    if todo:
+        cmd = mem_limit_prefix(mem_gb) + ['cargo', 'kani', '--target-dir', tdir, '-j', str(jobs), '--output-format', 'terse',
+                                          '--output-into-files', '--exact', '-Z', 'unstable-options',
+                                          '--harness-timeout', '%ds' % harness_timeout_s]
+        for q in todo:
+            cmd += ['--harness', q]
+        if not full_checks:
+            cmd += REDUCED
+        cmd += CBMC_ARGS
+        t0 = time.time()
+        with open(log, 'w') as lf:
+            try:
+                p = subprocess.run(cmd, cwd=KANI_DIR, stdout=lf, stderr=subprocess.STDOUT, env=ENV,
+                                   timeout=wall_cap_s or (harness_timeout_s * (1 + len(todo) // max(jobs, 1)) + 600))
+            except subprocess.TimeoutExpired:
+                pass
+        wall = time.time() - t0
+        logtxt = open(log, errors='replace').read()
+        build_failed = ('error: could not compile' in logtxt) or ('error[E' in logtxt)
+        for q in todo:
+            r = KaniResult(q)
+            f = os.path.join(outdir, q)
+            if os.path.exists(f):
+                parse_result_file(f, r)
+                cache_store(r, full_checks)
+            else:
+                r.status = 'undecided'
+            results[q] = r
     return results, wall, log, build_failed
 
 
@@ -198,6 +208,51 @@ def native_replay(harness, values, profile='debug', timeout_s=120):
     if p.returncode == 4:
         return 'void', p.stdout
     return 'error', 'exit %d\n%s' % (p.returncode, p.stdout)
+
+
+def harness_crate_hash():
+    h = hashlib.sha256()
+    for root in [os.path.join(KANI_DIR, 'src'), os.path.join(KANI_DIR, 'models')]:
+        for d, _, fs in sorted(os.walk(root)):
+            for f in sorted(fs):
+                pth = os.path.join(d, f)
+                h.update(pth.encode())
+                h.update(open(pth, 'rb').read())
+    h.update(open(os.path.join(KANI_DIR, 'Cargo.toml'), 'rb').read())
+    return h.hexdigest()[:16]
+
+
+def cache_key(qualified, full_checks):
+    return hashlib.sha256(('%s|%s|%s|%s|%s' % (repo_tree_hash(), harness_crate_hash(), qualified, full_checks, ' '.join(CBMC_ARGS + REDUCED))).encode()).hexdigest()[:24]
+
+
+def cache_load(qualified, full_checks):
+    """Verdicts are a function of (repo tree, harness crate, harness, flags): a decided instance is
+    reused when all of these are byte-identical (never across different trees). VERIF_NO_CACHE=1 disables."""
+    if os.environ.get('VERIF_NO_CACHE'):
+        return None
+    pth = os.path.join(BUILD, 'cache', cache_key(qualified, full_checks) + '.json')
+    if not os.path.exists(pth):
+        return None
+    try:
+        d = json.load(open(pth))
+    except Exception:
+        return None
+    r = KaniResult(qualified)
+    r.status, r.time_s, r.n_checks = d['status'], d['time_s'], d['n_checks']
+    r.failed = [tuple(x) for x in d['failed']]
+    r.covers, r.unwind_failed, r.labelled = d['covers'], d['unwind_failed'], d['labelled']
+    r.from_cache = True
+    return r
+
+
+def cache_store(r, full_checks):
+    if r.status not in ('ok', 'failed'):
+        return
+    os.makedirs(os.path.join(BUILD, 'cache'), exist_ok=True)
+    pth = os.path.join(BUILD, 'cache', cache_key(r.name, full_checks) + '.json')
+    json.dump({'status': r.status, 'time_s': r.time_s, 'n_checks': r.n_checks, 'failed': r.failed, 'covers': r.covers,
+               'unwind_failed': r.unwind_failed, 'labelled': r.labelled}, open(pth, 'w'))
 
 
 def repo_tree_hash():
